@@ -44,12 +44,12 @@ func genRec(t *rapid.T) RecCase {
 type nullStream struct{}
 
 func (nullStream) CollectPoint(edge.PointMessage) error { return nil }
-func (nullStream) Close() error                        { return nil }
+func (nullStream) Close() error                         { return nil }
 
 type nullBatch struct{}
 
 func (nullBatch) CollectBatch(edge.BufferedBatchMessage) error { return nil }
-func (nullBatch) Close() error                                { return nil }
+func (nullBatch) Close() error                                 { return nil }
 
 func runRec(c RecCase, cc *kit.Case) {
 	data := io.NopCloser(bytes.NewReader([]byte(strings.Join(c.Lines, "\n") + "\n")))
